@@ -57,6 +57,17 @@ def trees(draw):
                 continue
             if draw(st.integers(0, 99)) < density:
                 edges.append([a, b])            # b requires a
+    if draw(st.integers(0, 39)) == 0:
+        # a wide scheduler: one collector requiring a few hundred members (size thresholds)
+        base = n
+        holder = draw(st.sampled_from([k for k in range(n) if kinds[k] == 'sched']))
+        width = draw(st.sampled_from([40, 257, 300]))
+        for k in range(width + 1):
+            kinds.append('job')
+            parents.append(holder)
+            depth.append(depth[holder] + 1)
+        edges = edges + [[base + k, base + width] for k in range(width)]
+        n = len(kinds)
     return dict(top=draw(st.sampled_from(['pure', 'nestable'])), kinds=kinds,
                 parents=parents, edges=edges,
                 hkeys=[draw(st.integers(0, 15)) for _ in range(n)],
